@@ -199,6 +199,10 @@ def plan(tier, seed):
     for order in ("quadratic-linear", "linear-quadratic"):
         for dim in (1, 2):
             cases.append(dict(key=f"form2/{order}/dim={dim}", kind="form2", order=order, dim=dim, seed=seed, tier=tier, cost=3))
+    # several bilinear forms that share ONE test field object, with trial fields of the same block layout but another
+    # connectivity (the field itself, a cell-wise disconnected field, a field on a re-numbered mesh): every creation order
+    for dim in (1, 2):
+        cases.append(dict(key=f"formpairs/dim={dim}", kind="formpairs", dim=dim, seed=seed, tier=tier, cost=3))
     # field objects with a history: dual fields used in one container / geometry and then re-used in another one
     for fk in ("axi-mixed3", "ps-mixed3", "mixed3"):
         cases.append(dict(key=f"reuse/quad/{fk}", kind="reuse", fk=fk, seed=seed, tier=tier, cost=5))
@@ -674,6 +678,78 @@ def run_form2(case):
     return c.result(dict(case=case["key"], shape=list(ref.shape)))
 
 
+def run_formpairs(case):
+    """forms (v, u_k) created one after another on ONE test field object v; u_k in {v's own field, a field on the cell-wise
+    disconnected mesh, a field on a mesh whose points were re-numbered}: same points per cell and dimension, other global
+    columns.  Every ordered sequence (length 2 and 3) of creations, earlier forms kept alive; each form is assembled when it
+    is created and again after all were created; value-value and gradient-gradient integrands.  Reference: explicit loops."""
+    import felupe as fem
+
+    c = Ctx(case["key"])
+    seed, dim = case["seed"], case["dim"]
+    m = zoo.make("quad", "distorted", seed)
+    perm = np.arange(m.npoints)[::-1].copy()
+    inv = np.argsort(perm)
+    meshes = {"same": m, "disconnected": m.disconnect(), "renumbered": fem.Mesh(m.points[perm], inv[m.cells], "quad")}
+    regs = {k_: fem.RegionQuad(v_) for k_, v_ in meshes.items()}
+    rT = regs["same"]
+    q, nc = rT.dV.shape
+    coef = 1.0 + np.arange(q * nc, dtype=float).reshape(q, nc) / 5
+    A = zoo.offarr(seed, 930, (dim, dim))
+    hT = np.broadcast_to(rT.h, (rT.h.shape[0], q, nc))
+
+    def reference(name, grad_):
+        ru = regs[name]
+        hu = np.broadcast_to(ru.h, (ru.h.shape[0], q, nc))
+        ref = np.zeros((m.npoints * dim, ru.mesh.npoints * dim))
+        for cc in range(nc):
+            for a in range(4):
+                for b in range(4):
+                    if grad_:
+                        val = (coef[:, cc] * np.einsum("Jq,Jq->q", rT.dhdX[a, :, :, cc], ru.dhdX[b, :, :, cc]) * rT.dV[:, cc]).sum()
+                        blk = val * np.eye(dim)
+                    else:
+                        blk = (coef[:, cc] * hT[a, :, cc] * hu[b, :, cc] * rT.dV[:, cc]).sum() * A
+                    ref[dim * m.cells[cc, a]: dim * m.cells[cc, a] + dim, dim * ru.mesh.cells[cc, b]: dim * ru.mesh.cells[cc, b] + dim] += blk
+        return ref
+
+    refs = {(n_, g_): reference(n_, g_) for n_ in meshes for g_ in (False, True)}
+    nseq = 0
+    for grad_ in (False, True):
+        if grad_:
+            fun = np.einsum("ij,JL,qc->iJjLqc", np.eye(dim), np.eye(2), coef)
+        else:
+            fun = A[:, :, None, None] * coef
+        for depth in (2, 3):
+            for seq in itertools.permutations(meshes, depth):
+                vT = fem.FieldContainer([fem.Field(rT, dim=dim)])  # ONE test container / field object for the whole sequence
+                trial = {"same": vT}
+                forms = []
+                ok = True
+                for name in seq:
+                    if name not in trial:
+                        trial[name] = fem.FieldContainer([fem.Field(regs[name], dim=dim)])
+                    lab = f"grad={grad_}/order={'>'.join(seq)}/{name}"
+                    try:
+                        f_ = fem.IntegralForm([fun], v=vT, dV=rT.dV, u=trial[name], grad_v=[grad_], grad_u=[grad_])
+                        got = f_.assemble().toarray()
+                    except Exception as ex:  # noqa
+                        c.bad(lab + "/exception", "a bilinear form on a test field that already carries other forms raised", repr(ex)[:160], "a matrix")
+                        ok = False
+                        break
+                    c.trans += 1
+                    forms.append((name, f_))
+                    c.cmp(lab + "/at-creation", "bilinear form (v, u) created after other forms on the same test field object: defining sum at the global columns of ITS trial field", got, refs[(name, grad_)], 1e-12)
+                if ok:
+                    for name, f_ in forms:
+                        c.cmp(f"grad={grad_}/order={'>'.join(seq)}/{name}/afterwards", "earlier form assembled again after later forms were created on the same test field", f_.assemble().toarray(), refs[(name, grad_)], 1e-12)
+                        c.trans += 1
+                nseq += 1
+    c.traces += nseq
+    c.outcomes.add(f"form-creation-orders={nseq}")
+    return c.result(dict(case=case["key"], orders=nseq))
+
+
 def run_reuse(case):
     """(p, J) dual field objects that were assembled in a container on geometry 1 are re-used, together with a new
     displacement field, in a container on geometry 2 (same topology, other position / shape); and the other way round
@@ -896,4 +972,6 @@ def run_ifhist(case):
 def run(case):
     if case["kind"] == "ifhist":
         return run_ifhist(case)
+    if case["kind"] == "formpairs":
+        return run_formpairs(case)
     return {"linear": run_linear, "bilinear": run_bilinear, "parallel": run_parallel, "form": run_form, "threads": run_threads, "reuse": run_reuse, "form2": run_form2}[case["kind"]](case)
